@@ -11,6 +11,7 @@ import Pog.Model.Http
     authenticate      [plugin, {"headers","params","cookies"}]  → the three dicts | raises
     wireLookup        [pairs, name] → [values]
     dictUpdate        [pairs, pairs] → pairs
+    mergeHeaders      [pairs, pairs] → pairs      `merge_headers(d, e)` of core/auth/base.py (`dictUpdateCI`)
 
   plugin = {"t":"bearer","token":s} | {"t":"headers","headers":pairs} | {"t":"apikey","key":s,"location":s,"name":s}
          | {"t":"oauth2","token":s,"refresh": null | {"map": [[old,new],…], "default": s|null}}
@@ -92,7 +93,8 @@ def runSeq : Nat → Transport → CallerArgs Unit → List Json
   | 0, _, _ => []
   | n + 1, t, c => jsend (sendArgs t c) :: runSeq n t.after c
 
-def httpFns : List String := ["prepareHeaders", "prepareHeadersSeq", "authenticate", "wireLookup", "dictUpdate"]
+def httpFns : List String :=
+  ["prepareHeaders", "prepareHeadersSeq", "authenticate", "wireLookup", "dictUpdate", "mergeHeaders"]
 
 def httpRun (f : String) (a : Array Json) : Except String Json := do
   match f with
@@ -114,6 +116,7 @@ def httpRun (f : String) (a : Array Json) : Except String Json := do
     | .error e => pure (jerr e)
   | "wireLookup" => pure (jstrs (wireLookup (← getDict (← argN a 0)) (← getStr (← argN a 1))))
   | "dictUpdate" => pure (jdict (dictUpdate (← getDict (← argN a 0)) (← getDict (← argN a 1))))
+  | "mergeHeaders" => pure (jdict (dictUpdateCI (← getDict (← argN a 0)) (← getDict (← argN a 1))))
   | _ => throw s!"unknown function {f}"
 
 def dispatchHttp : Dispatch := fun f a _ =>
